@@ -80,6 +80,14 @@ def pick_sector(tm, rng, min_dim):
     return np.array(secs[k][0], dtype=int), secs[k][1]
 
 
+def irreducible(hs):
+    """is the coupling graph of the (sector) matrix connected?  (otherwise an iterative eigensolver started
+    inside an invariant subspace legitimately stays there)"""
+    from scipy.sparse.csgraph import connected_components
+    a = (np.abs(hs) > 1e-12).astype(int)
+    return connected_components(a, directed=False)[0] == 1
+
+
 def full_bond(dims):
     n = len(dims)
     return int(max([1] + [min(np.prod(dims[:i]), np.prod(dims[i:])) for i in range(1, n)]))
@@ -193,7 +201,7 @@ class HeffProbe:
         # (the solver is given a start close to the answer, as in a sweep; tiny multi-root problems are left out:
         #  for dimensions <= its subspace limit the Davidson code returns duplicate roots, which optimize_mps
         #  cannot reach because it diagonalises such problems directly)
-        if self.test_davidson and len(want) >= (3 if nroots == 1 else 20):
+        if self.test_davidson and len(want) >= 30:
             inverse = mps.optimize_config.inverse
             w, vv = np.linalg.eigh(want * inverse)
             guess = []
@@ -215,12 +223,9 @@ class HeffProbe:
             if np.any(e < w[:len(e)] - 1e-8 * sc):
                 self.viol(f"eigh_iterative:davidson:below-exact:{tag}", dict(cidx=cidx, e=e.tolist(), exact=w[:len(e)].tolist()))
             elif np.any(np.abs(e - w[:len(e)]) > 1e-6 * sc):
-                if omega is not None:
-                    # (H-omega)^2 is badly conditioned; 100 Davidson cycles need not reach 1e-6: not a violation
-                    self.run.count("H:davidson-micro-not-converged:omega")
-                else:
-                    self.viol(f"eigh_iterative:davidson:not-lowest-eigenvalues:{tag}:nroots={min(nroots, 2)}",
-                              dict(cidx=cidx, e=e.tolist(), exact=w[:len(e)].tolist(), dim=len(want)))
+                # an iterative solver that stops early (100 cycles, poor preconditioner, (H-omega)^2) is still
+                # variational: counted, not a violation.  Convergence is judged at the level of whole runs (F).
+                self.run.count("H:davidson-micro-not-converged")
             self.run.count("H:davidson-micro-checked")
 
     # -- wrappers
@@ -432,10 +437,14 @@ def run_chain_case(run, rng, kind, big=False, force=None):
         if order != list(range(n)):
             run.count("chain:ofs-reordered")
     # ---- F
-    if full and len(e_states) == len(states):
+    if full and big and not irreducible(hs):
+        run.count("F:skipped:reducible-sector-with-iterative-solver")
+    elif full and len(e_states) == len(states):
         last = rows[-1]
         tolf = (1e-6 if algo == "davidson" else 1e-7) * sc
-        if True:
+        # one-site sweeps cannot enlarge a bond space: from a start whose Schmidt ranks are below the sector's
+        # they converge only to the sweep-to-sweep tolerance e_rtol; exactness is claimed for two-site sweeps
+        if method == "2site":
             if np.any(np.abs(last - bound[:len(last)]) > tolf):
                 run.violation(f"optimize_mps:full-bond:energy-not-exact:{tagc}",
                               dict(replay, reported=last.tolist(), exact=bound[:len(last)].tolist()))
@@ -537,13 +546,40 @@ def run_tree_case(run, rng, kind):
     ttno = TTNO(tree, tm.ops())
     ttns.optimize_config.algo = algo
     micro = []
+    local_fired = []
     orig = tngs.optimize_2site
+    orig_eigh = tngs.eigh_iterative
 
     def rec(snode, ttns_, ttno_, ttne_):
         e, c = orig(snode, ttns_, ttno_, ttne_)
         micro.append(float(np.real(e)))
         return e, c
+
+    def eigh_checked(hop, hdiag, cguess, algo_):
+        e, c = orig_eigh(hop, hdiag, cguess, algo_)
+        nloc = len(hdiag)
+        if nloc <= 48:
+            a = np.array([np.asarray(hop(np.eye(nloc)[i])) for i in range(nloc)]).T
+            asym = absmax(a - a.T)
+            if asym > 1e-9 * scale:
+                if not local_fired:
+                    run.violation(f"optimize_ttns:local-operator-not-hermitian", dict(replay, dim=nloc, asym=asym))
+                local_fired.append("asym")
+            else:
+                wl = np.linalg.eigvalsh((a + a.T) / 2)
+                if float(np.real(e)) < wl[0] - 1e-8 * scale:
+                    cls = "dim<=16" if nloc <= 16 else "dim>16"
+                    if not local_fired:
+                        run.violation(f"optimize_ttns:{algo_}:local-eigenvalue-below-exact:{cls}",
+                                      dict(replay, dim=nloc, returned=float(np.real(e)), lowest=float(wl[0]),
+                                           matrix=tolist(a), guess=tolist(np.asarray(cguess)), vector_norm=float(np.linalg.norm(c))))
+                    local_fired.append("below")
+                elif abs(float(np.real(e)) - wl[0]) > 1e-6 * scale:
+                    run.count("tree:local-solver-not-lowest(iterative, allowed)")
+            run.count("T:local-problems-checked")
+        return e, c
     tngs.optimize_2site = rec
+    tngs.eigh_iterative = eigh_checked
     try:
         e_list = tngs.optimize_ttns(ttns, ttno, procedure)
     except Exception as e:
@@ -551,6 +587,11 @@ def run_tree_case(run, rng, kind):
         if algo == "arpack" and isinstance(e, TypeError) and "k >= N" in str(e):
             # SciPy's Lanczos refuses 1- and 2-dimensional local problems: a documented restriction of that solver
             run.count("tree:rejected:arpack-local-dimension<=k")
+            return None
+        if algo == "arpack" and type(e).__name__ == "ArpackError" and "Starting vector is zero" in str(e):
+            # ARPACK stops when H applied to the start vector vanishes (exact eigenvector with eigenvalue 0, e.g.
+            # the vacuum sector): an explicit refusal of that solver, counted
+            run.count("tree:rejected:arpack-start-vector-in-null-space")
             return None
         tb = traceback.extract_tb(e.__traceback__)
         frames = [f"{fr.name}:{(fr.line or '')[:60]}" for fr in tb[-3:]]
@@ -562,10 +603,11 @@ def run_tree_case(run, rng, kind):
         return None
     finally:
         tngs.optimize_2site = orig
+        tngs.eigh_iterative = orig_eigh
     tag = f"{algo}"
     tolv = 1e-8 * scale
     allE = np.array(list(map(float, e_list)) + micro)
-    if np.any(allE < w[0] - tolv):
+    if np.any(allE < w[0] - tolv) and not local_fired:
         run.violation(f"optimize_ttns:energy-below-exact:{tag}", dict(replay, lowest_reported=float(allE.min()), exact=float(w[0])))
     psi = np.asarray(ttns.todense(basis_list)).ravel()
     nrm = float(np.linalg.norm(psi))
@@ -581,7 +623,9 @@ def run_tree_case(run, rng, kind):
         if leak > 1e-9:
             run.violation(f"optimize_ttns:state-sector:{tag}", dict(replay, leak=leak))
         est = float(psi @ h @ psi)
-        if full:
+        if full and (local_fired or (algo != "direct" and not irreducible(h[np.ix_(mask, mask)]))):
+            run.count("T:full-check-skipped(local finding / reducible sector with iterative solver)")
+        elif full:
             tolf = (1e-7 if algo == "direct" else 1e-6) * scale
             if abs(e_list[-1] - w[0]) > tolf:
                 run.violation(f"optimize_ttns:full-bond:energy-not-exact:{tag}", dict(replay, reported=float(e_list[-1]), exact=float(w[0])))
@@ -599,6 +643,27 @@ def run_tree_case(run, rng, kind):
             run.count("T:full-checked")
     run.sample(dict(cfg=cfg, dims=tm.dims, e_last=float(e_list[-1]), exact=float(w[0])))
     return ("tree", kind, tuple(tm.dims), algo, full, tuple(map(tuple, groups)), tuple(parents))
+
+
+def davidson_probe(run):
+    """solver-level reproduction of the finding that tn.gs reaches with tiny local problems: the Davidson code
+    (single Gram-Schmidt pass) returns a value BELOW the lowest eigenvalue of a 4x4 diagonal matrix."""
+    d = np.array([-0.5, 0.4, 2.0, -1.0])
+    g = np.array([0.4543694673976518, -0.6247580176717713, -0.28398091712353235, -0.5679618342470647])
+    try:
+        e, c = tngs.eigh_iterative(lambda x: d * x, d.copy(), g.copy(), "davidson")
+    except Exception as ex:
+        run.count("tree:davidson-probe-raises:" + type(ex).__name__)
+        return
+    if float(np.real(e)) < d.min() - 1e-8:
+        run.violation("optimize_ttns:davidson:local-eigenvalue-below-exact:dim<=16",
+                      dict(where="tn.gs.eigh_iterative(hop, hdiag, cguess, 'davidson') on a 4x4 diagonal local problem "
+                                 "(the tree optimiser has no direct fallback for small problems; optimize_ttns reaches this, "
+                                 "e.g. random trees over the 2-species electron-phonon model report micro-iteration energies "
+                                 "0.01-0.02 below the exact ground energy)",
+                           matrix_diagonal=d.tolist(), guess=g.tolist(), returned=float(np.real(e)), lowest=float(d.min()),
+                           vector_norm=float(np.linalg.norm(c))))
+    run.count("T:davidson-probe")
 
 
 # ======================================================================================= driver
@@ -630,6 +695,8 @@ def search(run, rng, quick):
         evals += 1
         if key is not None:
             distinct.add(key)
+    davidson_probe(run)
+    evals += 1
     ntree = 20 if quick else 250
     tkinds = ["spin-u1", "eph", "spin", "qc", "eph-2qn"]
     for it in range(ntree):
